@@ -194,7 +194,9 @@ CHAINS = [("EMA", {"period": 2}, "SMA", {"period": 2, "input_value": "EMA_2"}),
           ("RSI", {"period": 2}, "STDEV", {"period": 2, "input_value": "RSI_2"}),
           ("SMA", {"period": 3}, "RMA", {"period": 2, "input_value": "SMA_3"}),
           ("MACD", {"fast_period": 2, "slow_period": 3, "signal_period": 2}, "EMA", {"period": 2, "input_value": "MACD_2_3_2.MACD", "name_suffix": "m"}),
-          ("Supertrend", {"period": 2, "multiplier": 1.0}, "Counter", {"input_value": "Supertrend_2.direction", "count_value": 1})]
+          ("Supertrend", {"period": 2, "multiplier": 1.0}, "Counter", {"input_value": "Supertrend_2.direction", "count_value": 1}),
+          ("SMA", {"period": 3}, "KC", {"period": 2, "multiplier": 1.0, "input_value": "SMA_3"}),
+          ("RSI", {"period": 2}, "BBANDS", {"period": 2, "input_value": "RSI_2"})]
 
 
 def explore_chain(item):
